@@ -193,7 +193,11 @@ def store_field(ex, st, obj, name, tnode, v):
         return
     if isinstance(v, ObjRef):
         k = class_kind(ct.name) if ct.kind == 'class' else 'ptr'
-        if k in ('vector', 'marray') :
+        if k == 'queue':
+            hp = v.name + '.head'
+            if hp in st.scal:
+                st.scal[path + '.head'] = st.scal[hp]
+        if k in ('vector', 'marray', 'queue'):
             # by-value copy of a container into the member
             for key in list(st.arr):
                 if key[0] == v.name:
@@ -454,6 +458,7 @@ class Use:
                 ex.logw(('len', t[1]))
         if hasattr(c, 'effect'):
             c.effect(Ctx(ex, st, pre, args, this=this or 'this'))
+        rres = c.result(Ctx(ex, st, pre, args, this=this or 'this'))
         insts = self.inst(Ctx(ex, st, pre, args, this=this or 'this')) if self.inst else [None]
         for inst in insts:
             if inst is None:
@@ -463,12 +468,13 @@ class Use:
                     pass
             else:
                 ex.ghosts = inst
-            cxp = Ctx(ex, st, pre, args, this=this or 'this')
+            cxp = Ctx(ex, st, pre, args, this=this or 'this', ret=rres)
             for lab, tg, f in c.ensures(cxp):
+                if z3.is_false(f):
+                    raise ExtractionError(f'{ex.unit}: contract {c.short()} post "{lab}" is literally false at a call site (spec error)')
                 st.assume(f)
         ex.ghosts = saved_g
-        r = c.result(Ctx(ex, st, pre, args, this=this or 'this'))
-        return r if r is not None else VoidV()
+        return rres if rres is not None else VoidV()
 
 
 def default_arg(ex, n, st, ai):
